@@ -260,6 +260,7 @@ func (m *BasicMutableWorld) AddFeature(f Feature) error {
 		(*m.features)[f.FeatureID()] = f
 		for _, reference := range references {
 			if err := ValidateFeature(NewFeatureFromWorld(reference), &ValidateOptions{InvertClockwisePaths: false}, m); err != nil {
+				(*m.features)[f.FeatureID()] = existing
 				return err
 			}
 		}
